@@ -84,7 +84,9 @@ def sensitivity(only=None):
             continue
         if only and not any(name.startswith(o) for o in only):
             continue
-        prop = json.load(open(meta))["property"]
+        meta_d = json.load(open(meta))
+        prop = meta_d["property"]
+        expected_miss = bool(meta_d.get("expected_miss"))
         if subprocess.run(["git", "-C", driver.REPO, "diff", "--quiet"]).returncode != 0:
             driver.log("HARNESS-ERROR /repo has uncommitted changes; refusing to apply patches")
             return 2
@@ -100,8 +102,14 @@ def sensitivity(only=None):
             subprocess.run(["git", "-C", driver.REPO, "checkout", "--", "."])
         viol = [l for l in p.stdout.splitlines() if l.startswith("VIOLATION")]
         ok = p.returncode == 1 and viol
-        rows.append((name, prop, "DETECTED (%d signature lines; first: %s)" % (len(viol), viol[0][:160]) if ok else "MISSED rc=%d" % p.returncode, time.time() - t0))
-        if not ok:
+        if ok:
+            verdict = "DETECTED (%d signature lines; first: %s)" % (len(viol), viol[0][:160])
+        elif expected_miss:
+            verdict = "EXPECTED-MISS rc=%d (documented in meta.json as outside what the check decides)" % p.returncode
+        else:
+            verdict = "MISSED rc=%d" % p.returncode
+        rows.append((name, prop, verdict, time.time() - t0))
+        if not ok and not expected_miss:
             rc_all = 1
         driver.log("[sensitivity] %-12s %s %s (%.0fs)" % (name, prop, rows[-1][2][:200], rows[-1][3]))
     # replay files produced while a patch was applied describe a tree that no longer exists
